@@ -459,3 +459,56 @@ fn release_all(s: &Arc<Sched>) {
         std::thread::sleep(Duration::from_millis(1));
     }
 }
+
+// ---------------------------------------------------------------------------
+// Running two actors under a plan
+
+pub type ActorBody<T> = Box<
+    dyn FnOnce(Transport, Arc<conserve::monitor::test::TestMonitor>) -> Pin<Box<dyn Future<Output = Result<T, String>>>>
+        + Send
+        + 'static,
+>;
+
+fn spawn_actor<T: Send + 'static>(
+    s: &Arc<Sched>,
+    actor: u32,
+    body: ActorBody<T>,
+) -> std::thread::JoinHandle<crate::cs::Outcome<T>> {
+    let s = s.clone();
+    std::thread::spawn(move || {
+        let monitor = conserve::monitor::test::TestMonitor::arc();
+        let m2 = monitor.clone();
+        let s2 = s.clone();
+        let r = crate::report::guard(move || s2.run_actor(actor, move |t| body(t, m2)));
+        if r.is_err() {
+            s.abandon(actor);
+        }
+        let errors: Vec<String> = monitor.take_errors().into_iter().map(crate::cs::errstr).collect();
+        match r {
+            Ok(res) => crate::cs::Outcome {
+                panic: None,
+                result: Some(res),
+                errors,
+            },
+            Err(p) => crate::cs::Outcome {
+                panic: Some(p),
+                result: None,
+                errors,
+            },
+        }
+    })
+}
+
+pub fn run_two<T1: Send + 'static, T2: Send + 'static>(
+    s: &Arc<Sched>,
+    a1: (u32, ActorBody<T1>),
+    a2: (u32, ActorBody<T2>),
+    plan: &Plan,
+) -> (crate::cs::Outcome<T1>, crate::cs::Outcome<T2>, Driven) {
+    let t1 = spawn_actor(s, a1.0, a1.1);
+    let t2 = spawn_actor(s, a2.0, a2.1);
+    let d = drive(s, plan, Duration::from_secs(30));
+    let o1 = t1.join().expect("actor thread");
+    let o2 = t2.join().expect("actor thread");
+    (o1, o2, d)
+}
